@@ -1,8 +1,9 @@
 #!/usr/bin/env python3
 """Self-tests of the machinery: `bigint` cross-checks the Java override against the pure TLA+ definitions."""
 import os, random, subprocess, sys, shutil
-SPEC = "/verif/spec"
-WORK = os.environ.get("VERIF_TMP", "/verif/.work")
+ROOT = os.path.dirname(os.path.dirname(os.path.abspath(__file__)))
+SPEC = os.path.join(ROOT, "spec")
+WORK = os.environ.get("VERIF_TMP", os.path.join(ROOT, ".work"))
 
 def bigint():
     rnd = random.Random(7)
